@@ -321,6 +321,8 @@ class Gen:
                 rhs = L.fn("exists", rhs)
             if rhs["k"] == "eq":  # the grammar has no equality on the right of an assignment
                 rhs = L.fn("and", rhs, L.fn("yes"))
+            if rhs["k"] == "fn" and rhs["name"] in ("none", "header_name", "header_index", "end", "get", "peek"):
+                kind = "any"     # none() has the value None: a tracking entry holding None prints as the whole dictionary (IMPL)
         else:
             rhs = self.anyval(1)
         if rhs["k"] == "fn" and rhs["name"] in ("count", "has_matches") and not rhs["args"]:
